@@ -2898,6 +2898,16 @@ func (p *Posix) PutObject(ctx context.Context, po s3response.PutObjectInput) (s3
 		versionID = nullVersionId
 	}
 
+	// Sidecar metadata is keyed by object name and outlives the file it
+	// described: the new object must not inherit the attributes (tags, user
+	// metadata, content headers) of the one it replaces.
+	if _, ok := p.meta.(meta.SideCar); ok {
+		err = p.meta.DeleteAttributes(*po.Bucket, *po.Key)
+		if err != nil {
+			return s3response.PutObjectOutput{}, fmt.Errorf("clear object attributes: %w", err)
+		}
+	}
+
 	for k, v := range po.Metadata {
 		err := p.meta.StoreAttribute(f.File(), *po.Bucket, *po.Key,
 			fmt.Sprintf("%v.%v", metaHdr, k), []byte(v))
@@ -4529,6 +4539,14 @@ func (p *Posix) GetObjectTagging(_ context.Context, bucket, object string) (map[
 		return nil, fmt.Errorf("stat bucket: %w", err)
 	}
 
+	_, err = os.Stat(filepath.Join(bucket, object))
+	if errors.Is(err, fs.ErrNotExist) || errors.Is(err, syscall.ENOTDIR) {
+		return nil, s3err.GetAPIError(s3err.ErrNoSuchKey)
+	}
+	if err != nil {
+		return nil, fmt.Errorf("stat object: %w", err)
+	}
+
 	return p.getAttrTags(bucket, object)
 }
 
@@ -4560,6 +4578,16 @@ func (p *Posix) PutObjectTagging(_ context.Context, bucket, object string, tags 
 	}
 	if err != nil {
 		return fmt.Errorf("stat bucket: %w", err)
+	}
+
+	// the object itself must exist: not every metadata store notices
+	// (sidecar metadata lives in a directory of its own)
+	_, err = os.Stat(filepath.Join(bucket, object))
+	if errors.Is(err, fs.ErrNotExist) || errors.Is(err, syscall.ENOTDIR) {
+		return s3err.GetAPIError(s3err.ErrNoSuchKey)
+	}
+	if err != nil {
+		return fmt.Errorf("stat object: %w", err)
 	}
 
 	if tags == nil {
